@@ -71,46 +71,37 @@ def _cvc5_check(text, timeout_s):
 
 
 def _work(job):
+    """ematch-only z3 (fast, deterministic) -> cvc5 -> z3 default.  `candidate` = E-matching saturated
+    without a refutation and returned a candidate model: the obligation is not provable with the
+    given triggers (reported as failed when nobody else proves it)."""
     idx, text, timeout_ms, both = job
     r, info, dt = _z3_check(text, timeout_ms, True, ematch=True)
     backend = 'z3-ematch'
     if both == 'fast':
         return idx, r, info, dt, backend
-    candidate = None
-    if r == 'candidate':
-        candidate = info
-    if r != 'unsat' and r != 'sat':
-        # cvc5 next: its E-matching + enumerative instantiation is fast on these VCs
-        r2, info2, dt2 = _cvc5_check(text, min(timeout_ms / 1000.0, 5.0))
-        dt += dt2
-        if r2 == 'unsat':
-            return idx, 'unsat', '', dt, 'cvc5'
-    if r != 'unsat' and r != 'sat':
-        r1, info1, dt1 = _z3_check(text, timeout_ms, True)
-        dt += dt1
-        backend = 'z3'
-        if r1 in ('unsat', 'sat'):
-            r, info = r1, info1
-        elif candidate is not None:
-            r, info = 'candidate', candidate
-        else:
-            r, info = r1, info1
-    if r in ('unknown', 'error', 'candidate'):
-        r2, info2, dt2 = _cvc5_check(text, timeout_ms / 1000.0)
-        if r2 in ('sat', 'unsat'):
-            # a cvc5 `sat` on quantified input is not trusted as a counter-model
-            if r2 == 'unsat':
-                r, backend, dt = 'unsat', 'cvc5', dt + dt2
-            elif r != 'candidate':
-                r, info = 'unknown', 'z3: %s; cvc5: sat (not trusted on quantified input)' % info
-    elif r == 'unsat' and both:
-        r2, _, dt2 = _cvc5_check(text, timeout_ms / 1000.0)
-        backend = 'z3+cvc5' if r2 == 'unsat' else 'z3 (cvc5: %s)' % r2
-        dt += dt2
-    return idx, r, info, dt, backend
+    if r == 'unsat':
+        if both:
+            r2, _, dt2 = _cvc5_check(text, timeout_ms / 1000.0)
+            backend = 'z3+cvc5' if r2 == 'unsat' else 'z3 (cvc5: %s)' % r2
+            dt += dt2
+        return idx, r, info, dt, backend
+    if r == 'sat':
+        return idx, r, info, dt, backend
+    candidate = info if r == 'candidate' else None
+    r2, info2, dt2 = _cvc5_check(text, min(timeout_ms / 1000.0, 5.0 if not both else 30.0))
+    dt += dt2
+    if r2 == 'unsat':
+        return idx, 'unsat', '', dt, 'cvc5'
+    r1, info1, dt1 = _z3_check(text, timeout_ms if both else min(timeout_ms, 4000), True)
+    dt += dt1
+    if r1 in ('unsat', 'sat'):
+        return idx, r1, info1, dt, 'z3'
+    if candidate is not None:
+        return idx, 'candidate', candidate, dt, 'z3-ematch'
+    return idx, 'unknown', 'z3-ematch: %s; cvc5: %s; z3: %s' % (info, r2, info1), dt, 'none'
 
 
-def discharge(obligations, timeout_ms=10000, both=False, procs=None, fast=False):
+def discharge(obligations, timeout_ms=10000, both=False, procs=None, fast=False, max_fail=None):
     if fast:
         both = 'fast'
     """Returns list of dict(name, status, info, time, backend) aligned with obligations."""
@@ -126,12 +117,24 @@ def discharge(obligations, timeout_ms=10000, both=False, procs=None, fast=False)
         outs = map(_work, jobs)
     else:
         pool = mp.get_context('fork').Pool(procs)
+        outs = []
+        nfail = 0
         try:
-            outs = pool.imap_unordered(_work, jobs, chunksize=1)
-            outs = list(outs)
+            for o in pool.imap_unordered(_work, jobs, chunksize=1):
+                outs.append(o)
+                if o[1] in ('sat', 'candidate'):
+                    nfail += 1
+                    if max_fail and nfail >= max_fail:
+                        # enough failed obligations to report a violation: the rest is not solved
+                        pool.terminate()
+                        break
         finally:
             pool.close()
             pool.join()
+        done = {o[0] for o in outs}
+        for j in jobs:
+            if j[0] not in done:
+                outs.append((j[0], 'unknown', 'not attempted: the run already has %d failed obligations' % nfail, 0.0, 'skipped'))
     for idx, r, info, dt, backend in outs:
         status = {'unsat': 'proved', 'sat': 'failed', 'candidate': 'failed-candidate', 'unknown': 'unknown', 'error': 'error'}[r]
         results[idx] = dict(name=obligations[idx].name, status=status, info=info, time=dt, backend=backend)
